@@ -98,6 +98,9 @@ def c19(run):
     run.assumptions += ["one header per tick; recency/expiry boundaries are hit exactly because virtual time is frozen during a call",
                         "the getter is scripted below the Exchange: verification against the trusted head is not re-done by it"]
     judge(run, cases, "TestSyncerHead", "SyncerHeadTrace", ["C19_"], shards=8, pkg="synch")
+    # schedule replay through the sync yield point: a Head() caller parked inside syncStore.Append while gossip and the
+    # sync loop move the head (the interleaving behind finding D13)
+    judge(run, [{"id": 0, "from_tlc": False}], "TestHeadRace", "SyncerHeadTrace", ["C19_", "IMPL_race"], shards=1, pkg="synch")
 
 
 def syncer_cfg(n, maxreq, faults, events, export, live=False):
